@@ -16,14 +16,14 @@ BOUNDS = {
               'float/double Rep on 4 pairs: cast, floor, ceil, abs, unary, + -, common type, comparisons, d/d, += -= *= /=, converting constructor, time_point casts == libstdc++ bit for bit for every bit pattern. '
               'mixed Rep: int32+int64, int64+int16 (exact + std::chrono), float+double, double+float, double+int32, int64+double on 1-2 pairs; integer operands of an integer/floating mix |count| <= 2^31 and |count*factor| < 2^53.'),
     'thorough': ('as quick with all 100 ordered pairs x {int32,int64} (pairs with an empty domain skipped); round with the rational oracle |count| < 2^14 for dividing factors 1/d, 2^12 (int32) / 2^11 (int64) for factors n/d; '
-                 'int16 on every pair with a non-empty domain; d/d quotient definition |divisor| < 2^6 on all pairs; float/double on 15 pairs; more mixed-Rep pairs'),
+                 'int16 on every pair with a non-empty domain; float/double on 15 pairs; more mixed-Rep pairs'),
 }
 ASSUMPTIONS = [
     'C12: inputs restricted to those whose exact result and intermediate common-type / intmax_t values are representable (outside that std::chrono is undefined too); the domain is an interval of counts computed by a constexpr 128-bit search in the driver and static_assert-checked at its ends',
     'C12: abs and unary minus exclude Rep::min, ++/-- exclude the extreme value; division/modulo exclude zero divisors and min / -1',
     'C12: floating-point Rep: the oracle is libstdc++ std::chrono executed through the same pipeline (bit-exact agreement), not a rational oracle; NaN counts are excluded from the comparison operators (libstdc++ answers false for NaN <= NaN, the standard wording !(rhs < lhs) and etl answer true); round is not defined for floating Rep (std constraint)',
     'C12: q_round with RLIM and q_divdef with DLIM/ALIM are range-bounded as stated in BOUNDS; everything else is over the whole domain',
-    'C12: period pair nano x 5/7: round<> does not compile (etl::lcm(d, d) overflows for the common denominator 7e9, lcm.hpp computes (m*n)/gcd) - kernels are built with NO_ROUND there and round is outside the claim',
+    'C12: period pair nano x 5/7 (both orders): the common type duration<Rep, ratio<1, 7000000000>> cannot be instantiated (etl::lcm(d, d) = (d*d)/gcd overflows in a constant expression), so nothing but duration_cast compiles for that pair; the pair is skipped and reported as a defect',
     'C12: binary duration*scalar, scalar*duration, duration/scalar, duration%scalar, time_point +/- duration and time_point - time_point do not exist in tetl (missing functionality, nothing to encode); the time_point converting constructor does not compile (time_point.hpp:55 calls time_since_epch()) and is therefore not encodable either',
     'C12: int64 + double with a factor other than 1 on the integer side: the main query gets no verdict from any back end; only the confirm query of known finding C12_conv_ctor_int_overflow runs for that configuration',
 ]
@@ -109,6 +109,15 @@ def domains(w, fn, fd, tn, td):
             'a': dom(lambda a: fits(a * ff), rmax), 'b': dom(lambda b: fits(b * tf), rmax), 'cd': cd, 'cn': cn, 'ff': ff, 'tf': tf}
 
 
+def uninstantiable(fd, td):
+    """common period denominator d with d*d > INTMAX (nano x 5/7, d = 7e9): etl::lcm(d, d) = (d*d)/gcd overflows in the constant
+    expression of common_type<CT, CT>, which the class duration<Rep, ratio<1, d>> needs for the return type of its unary operators -
+    the common type cannot be instantiated, so + - comparisons floor ceil round of the pair do not compile (genuine defect, not
+    encodable; reported)"""
+    pd = lcm(fd, td)
+    return pd * pd > (1 << 63) - 1
+
+
 def wide(d, n=8):
     return d is not None and d[1] - d[0] >= n
 
@@ -119,20 +128,18 @@ def int_queries(tier, w, f, t, arith=True, rlim_div=None, dlim=6, bud=90, divdef
     full16 = (w == 16)
     rlim = 0 if (D['cd'] == 1 or full16) else rlim_div[(w, D['cn'] == 1)]
     cfg = {'REPW': w, 'FN': fn, 'FD': fd, 'TN': tn, 'TD': td, 'RLIM': rlim, 'DLIM': dlim, 'ALIM': 12 if w > 16 else 0}
-    pd = lcm(fd, td)
-    no_round = pd * pd > (1 << 63) - 1   # etl::lcm(d, d) overflows: round<> does not compile for this pair (see kernel.cpp)
-    if no_round:
-        cfg['NO_ROUND'] = 1
+    if uninstantiable(fd, td):
+        return []
     out = []
 
     def add(entry, solver, **kw):
-        out.append(dict(entry=entry, cfg=cfg, unwind=3, solver=solver, budget=bud, witness_solver='kissat', **kw))
+        out.append(dict(entry=entry, cfg=cfg, unwind=3, solver=solver, budget=bud, smt_budget=min(bud, 60) if len(solver) > 1 else bud, witness_solver='kissat', **kw))
     if wide(D['cast']): add('q_cast', SMT + SAT)
     if wide(D['floor']): add('q_floor', SMT + SAT)
     if wide(D['ceil']): add('q_ceil', SMT + SAT)
     if wide(D['round']):
         add('q_tp_casts', SMT)
-    if wide(D['round']) and not no_round:
+    if wide(D['round']):
         add('q_round', (SMT + SAT) if rlim == 0 and not full16 else SAT)
         if (w, f, t) not in ROUND_STD_HARD:
             add('q_round_std', SMT)
@@ -179,13 +186,13 @@ def queries(tier, prop='C12'):
     quick = tier == 'quick'
     out = []
     pairs = QUICK_PAIRS if quick else [(a, b) for a in PERIODS for b in PERIODS]
-    bud = 90 if quick else 600
+    bud = 90 if quick else 300
     # log2 bound on |count| for round with the rational oracle when the factor divides, by (Rep width, numerator == 1): measured
     rlim_div = {(32, True): 12, (32, False): 12, (64, True): 12, (64, False): 9} if quick else {(32, True): 14, (32, False): 12, (64, True): 14, (64, False): 11}
-    dlim = 5 if quick else 6
+    dlim = 5
     for w in (32, 64):
         for i, (f, t) in enumerate(pairs):
-            out += int_queries(tier, w, f, t, arith=(not quick or i % 2 == 0), rlim_div=rlim_div, dlim=dlim, bud=bud, divdef=(not quick or (f, t) in DIVDEF_Q))
+            out += int_queries(tier, w, f, t, arith=(not quick or i % 2 == 0), rlim_div=rlim_div, dlim=dlim, bud=bud, divdef=((f, t) in DIVDEF_Q))
         for f in (['milli', 'r5_7'] if quick else list(PERIODS)):
             out += unary_queries(w, f, dlim, bud)
     for (f, t) in (I16_PAIRS if quick else [(a, b) for a in PERIODS for b in PERIODS]):
